@@ -19,7 +19,7 @@ from ..common import MachineryError, tmp_root
 from ..drive import asm, pmap, run_cli
 from ..tlc import run_tlc, require_ok
 
-LINE = re.compile(r"^(-?[0-7]{6,}) (\S+)$")
+LINE = re.compile(r"^\s*(-?[0-7]+)\s+(\S+)\s*$")      # '<value in octal> <name>'; width and padding are not part of the property
 
 
 def parse_strict(text):
@@ -38,7 +38,7 @@ def parse_strict(text):
             continue
         m = LINE.match(ln)
         if not m:
-            return None, f"line {ln!r} is not '<octal value, at least six digits> <name>'"
+            return None, f"line {ln!r} is not '<octal value> <name>'"
         cur[1].append((m.group(2), int(m.group(1), 8)))
     return secs, None
 
@@ -203,5 +203,5 @@ def main(run):
         run.sample({"selector": res.exports[len(res.exports) // 2]["sel"], "predicted_listing_path": res.exports[len(res.exports) // 2]["listing"]})
     run.exhaustive = False
     run.assumptions += ["the order of the per-file sections is not specified by the property and not compared",
-                        "negative values may be printed with any zero padding after the sign; non-negative values need at least six octal digits",
+                        "values are read as octal numbers with an optional sign; field width and zero padding are not compared",
                         "'-o' together with a directive output is not generated ('first output file' is ambiguous there)"]
